@@ -493,7 +493,7 @@ def _rules_effect(x, P, variables, quirks=()):
     return out
 
 
-def _uris(x, acc):
+def _uris(x, acc, depth=99):
     """the namespace URIs the selectors of the written style rules refer to (selector projection form of gen.py: typesel = (uri, name), ('attr', uri, ...),
     ('not', ('type', typesel) | simple))"""
     def real(u):
@@ -520,9 +520,25 @@ def _uris(x, acc):
                         acc.add(ts[0])
                     for sm in simples:
                         simple(sm)
-        elif nd['k'] == 'media':
-            _uris(nd['rules'], acc)
+        elif nd['k'] == 'media' and depth > 0:
+            _uris(nd['rules'], acc, depth - 1)
     return acc
+
+
+def _without_default_ns(x, uri):
+    def comp(cp):
+        ts, simples = cp
+        if ts is not None and ts[0] == uri:
+            ts = (None, ts[1])
+        return (ts, tuple(('not', ('type', (None, sm[1][1][1]))) if sm[0] == 'not' and sm[1][0] == 'type' and sm[1][1][0] == uri else sm for sm in simples))
+    out = []
+    for nd in x:
+        if nd['k'] == 'style':
+            nd = dict(nd, selectors=tuple(tuple((c, comp(cp)) for c, cp in sel) if isinstance(sel, tuple) and sel and sel[0] != 'raw' else sel for sel in nd['selectors']))
+        elif nd['k'] == 'media':
+            nd = dict(nd, rules=_without_default_ns(nd['rules'], uri))
+        out.append(nd)
+    return out
 
 
 def expected(x, P, cssutils, quirks=()):
@@ -533,7 +549,15 @@ def expected(x, P, cssutils, quirks=()):
         return [y]
     # keepUsedNamespaceRulesOnly=True: "if True only namespace rules which are actually used are kept"; a namespace used only by rules that are not written may go or stay
     before, after = _uris(x, set()), _uris(y, set())
+    if 'nsnested' in quirks:
+        # model of the recorded finding C06-used-namespace-nested-media: selectors below the first @media level are not looked at
+        before, after = _uris(x, set(), 1), _uris(y, set(), 1)
     must_drop = [nd for nd in y if nd['k'] == 'namespace' and nd['p'][2] not in before]
+    if 'nsnested' in quirks:
+        # ... and with the default namespace rule gone the type selectors it applied to are read without namespace
+        for m in must_drop:
+            if not m['p'][1]:
+                y = _without_default_ns(y, m['p'][2])
     may_drop = [nd for nd in y if nd['k'] == 'namespace' and nd['p'][2] in before and nd['p'][2] not in after]
     base = [nd for nd in y if not any(nd is m for m in must_drop)]
     if not may_drop:
@@ -589,10 +613,6 @@ def _decl_pairs(xitems, vitems):
     if len(xd) != len(vd):
         raise Malformed('%d declarations written, %d expected' % (len(vd), len(xd)))
     return list(zip(xd, vd))
-
-
-def _flat(toks):
-    return [t for t in toks]
 
 
 def spelling_faults(y, v, P):
@@ -760,6 +780,8 @@ EXTRA = [
     ('namespaces-unused', '@namespace p "http://example.org/p"; @namespace q "http://example.org/q"; a { color: red }'),
     ('namespaces-used-in-empty', '@namespace p "http://example.org/p"; p|a { } b { color: red }'),
     ('namespaces-used-in-media', '@namespace p "http://example.org/p"; @media print { p|a { color: red } }'),
+    ('namespaces-nested-media', '@namespace "http://example.org/d"; @media screen { @media print { a { color: red } } b { top: 0 } }'),
+    ('namespaces-nested-media-prefix', '@namespace p "http://example.org/p"; @media screen { @media print { p|a { color: red } } }'),
     ('namespace-default-only', '@namespace "http://example.org/d"; a { color: red } .c { top: 0 }'),
     ('duplicates', 'a { color: red; color: blue; COLOR: green; top: 1px; top: 2px !important; top: 3px; left: 0 }'),
     ('duplicates-comments', 'a { color: red; /*1*/ color: blue /*2*/ ; /*3*/ }'),
@@ -972,7 +994,7 @@ def evaluate(cssutils, label, src, assigns):
             want = [norm_zero(projection(y)) for y in ys]
             if p2 not in want:
                 # the models of the recorded findings: the observed DOM must equal one of them EXACTLY to count as that finding
-                for quirks in (('validvar',), ('emptyblock',), ('validvar', 'emptyblock')):
+                for quirks in (('validvar',), ('emptyblock',), ('validvar', 'emptyblock'), ('nsnested',), ('nsnested', 'emptyblock'), ('nsnested', 'validvar')):
                     qs = expected(x, P, cssutils, quirks)
                     qw = [norm_zero(projection(y)) for y in qs]
                     if p2 in qw:
@@ -1032,6 +1054,23 @@ K_SEMI = 'C06-last-semicolon-after-dropped-item'
 K_COMB = 'C06-combinator-spacer-glues-plus'
 K_EMPTY = 'C06-keepemptyrules-page-fontface'
 K_VALIDVAR = 'C06-validonly-unresolved-variable'
+K_NSNEST = 'C06-used-namespace-nested-media'
+
+
+def _nested_media_uses_prefix(src):
+    """a style rule inside an @media inside an @media writes a namespace prefix (its selector cannot be read again once the @namespace rule is gone)"""
+    try:
+        for nd in view(src):
+            if nd['k'] == 'at' and nd['type'] == 'MEDIA_SYM':
+                for sub in nd.get('rules', ()):
+                    if sub['k'] == 'at' and sub['type'] == 'MEDIA_SYM':
+                        for r in walk(sub.get('rules', ())):
+                            if r['k'] == 'style' and any(t == ('CHAR', '|') for t in r['prelude']):
+                                return True
+    except Malformed:
+        pass
+    return False
+
 
 KNOWN = [
     (K_ATKW, lambda label, src, cl, P, d: cl == CL_SER and not P['defaultAtKeyword'] and "has no attribute '_keyword'" in d),
@@ -1042,6 +1081,8 @@ KNOWN = [
     (K_COMB, lambda label, src, cl, P, d: cl in (CL_LAYOUT, CL_EFFECT) and P['selectorCombinatorSpacer'] == '' and _plus_number(src) and ("'+" in d)),
     (K_EMPTY, lambda label, src, cl, P, d: cl == CL_EFFECT and P['keepEmptyRules'] and d.startswith('[model:') and 'emptyblock' in d.split(']')[0]),
     (K_VALIDVAR, lambda label, src, cl, P, d: cl == CL_EFFECT and P['validOnly'] and not P['resolveVariables'] and d.startswith('[model:') and 'validvar' in d.split(']')[0]),
+    (K_NSNEST, lambda label, src, cl, P, d: cl == CL_EFFECT and P['keepUsedNamespaceRulesOnly'] and ((d.startswith('[model:') and 'nsnested' in d.split(']')[0])
+                                                                                                  or (_nested_media_uses_prefix(src) and "('namespace'," in d and '@namespace' not in d.split(' | ')[-1]))),
 ]
 
 
@@ -1180,6 +1221,7 @@ WITNESSES = [
     (K_COMB, '@bar 1 + 1; a:nth-child(2n + 1){top:0}', {'selectorCombinatorSpacer': ''}),
     (K_EMPTY, '@page{} @font-face{} a{}', {'keepEmptyRules': True}),
     (K_VALIDVAR, '@variables{c:red} a{color:var(c)}', {'validOnly': True, 'resolveVariables': False}),
+    (K_NSNEST, '@namespace "d"; @media screen{@media print{a{top:0}}}', {'keepUsedNamespaceRulesOnly': True}),
 ]
 
 
